@@ -8,6 +8,8 @@ Open Scope Q_scope.
    did not change).  Result: (flux-step verdict, limiter tie, stored-PSD verdict, truncation tie) *)
 Definition check02 (rt dt : Q) (b p g : list Q) (nr rn : Q) (rdfi : nat) (minR : Q) (sz : list Q)
                    (xn : list Q) (cmp_stored : bool) (stored : list Q) :=
+  (* getdXdt zeroes the state it is handed in place (KWNBase._calculateDependentTerms -> _processX) *)
+  let p := processX Qops rdfi minR sz p in
   let nf := netFlux Qops b p g in
   let ltie := lim_tie (rt * 64) dt nf p in
   let x' := eulerStep Qops dt b p g nr rn in
